@@ -17,9 +17,11 @@ ROOT = os.path.dirname(os.path.dirname(os.path.abspath(__file__)))
 sys.path.insert(0, os.path.join(ROOT, "tools"))
 import anchors as ANCHORS
 import props as PROPS
-REPO = os.environ.get("TEVEC_REPO", "/repo")
-TARGET = "/tmp/tevec-cov-target"
-RUN = "/tmp/tevec-cov-run"
+_sib = os.path.join(os.path.dirname(ROOT), "repo")
+REPO = os.environ.get("TEVEC_REPO") or (_sib if ROOT != "/verif" and os.path.isdir(_sib) else "/repo")
+_tag = "" if ROOT == "/verif" else "-" + os.path.basename(os.path.dirname(ROOT))
+TARGET = "/tmp/tevec-cov-target" + _tag
+RUN = "/tmp/tevec-cov-run" + _tag
 TC = "nightly"
 
 def sh(cmd, **kw):
@@ -51,6 +53,48 @@ def fn_ranges(path):
         out.append((name, start, end))
     return out, lines
 
+
+def parse_lcov(lcov):
+    da, cur = {}, None
+    for l in lcov.split("\n"):
+        if l.startswith("SF:"): cur = l[3:]; da.setdefault(cur, {})
+        elif l.startswith("DA:") and cur:
+            ln, cnt = l[3:].split(",")[:2]
+            da[cur][int(ln)] = max(da[cur].get(int(ln), 0), int(cnt))
+    return da
+
+def report_files(files, da, md, summary, label):
+    tot_l = tot_h = 0
+    for f in files:
+        path = os.path.join(REPO, f)
+        if not os.path.exists(path): continue
+        d = da.get(os.path.realpath(path), da.get(path, {}))
+        ranges, lines = fn_ranges(path)
+        absent, dead, partial, full = [], [], [], 0
+        for (name, s, e) in ranges:
+            inner = {ln: c for ln, c in d.items() if s <= ln <= e}
+            if not inner: absent.append("%s (line %d)" % (name, s)); continue
+            hit = [ln for ln, c in inner.items() if c > 0]
+            tot_l += len(inner); tot_h += len(hit)
+            if not hit: dead.append("%s (line %d)" % (name, s)); continue
+            miss = sorted(ln for ln, c in inner.items() if c == 0)
+            miss = [ln for ln in miss if re.sub(r"[\s{}();,]|else", "", lines[ln - 1])]
+            if miss: partial.append((name, s, miss))
+            else: full += 1
+        md += ["## %s" % f, "",
+               "%d functions: %d fully executed, %d partly, %d compiled but never executed, %d never compiled into a harness."
+               % (len(ranges), full, len(partial), len(dead), len(absent)), ""]
+        if absent: md += ["Never compiled into a harness (no instantiation): " + ", ".join(absent), ""]
+        if dead: md += ["Compiled, never executed: " + ", ".join(dead), ""]
+        for (name, s, miss) in partial:
+            md += ["* `%s` (line %d): lines not reached:" % (name, s)]
+            for ln in miss[:12]:
+                md += ["    - %d: `%s`" % (ln, lines[ln - 1].strip()[:150])]
+            if len(miss) > 12: md += ["    - ... %d more" % (len(miss) - 12)]
+        md += [""]
+        summary.append((label, f, len(ranges), full, len(partial), len(dead), len(absent)))
+    return tot_l, tot_h
+
 def main(argv):
     want = [a for a in argv if re.match(r"C\d+$", a)] or ["C%02d" % i for i in range(1, 21)]
     B = llvm_bin()
@@ -63,6 +107,7 @@ def main(argv):
     os.makedirs(os.path.join(ROOT, "coverage"), exist_ok=True)
     files_of = ANCHORS.anchor_files()
     summary = []
+    all_raws, all_bins = [], []
     for prop in want:
         cfg = PROPS.PROPS[prop]
         bins = cfg["bins"]
@@ -78,45 +123,11 @@ def main(argv):
         for b in bins: objs += ["-object", os.path.join(TARGET, "debug", b)]
         objs = objs[1:]   # first object is positional
         lcov = sh([os.path.join(B, "llvm-cov"), "export", "-format=lcov", "-instr-profile=" + pd] + objs).stdout
-        da = {}
-        cur = None
-        for l in lcov.split("\n"):
-            if l.startswith("SF:"): cur = l[3:]; da.setdefault(cur, {})
-            elif l.startswith("DA:") and cur:
-                ln, cnt = l[3:].split(",")[:2]
-                da[cur][int(ln)] = max(da[cur].get(int(ln), 0), int(cnt))
+        da = parse_lcov(lcov)
         md = ["# %s — source coverage of the anchored files by the quick correspondence run" % prop, "",
               "Harness binaries: %s (seed 1, quick sizes). Generated by `tools/coverage.py`; a measurement, not a check." % ", ".join(bins), ""]
-        tot_l = tot_h = 0
-        for f in files_of.get(prop, []) + ANCHORS.EXTRA.get(prop, []):
-            path = os.path.join(REPO, f)
-            if not os.path.exists(path): continue
-            d = da.get(os.path.realpath(path), da.get(path, {}))
-            ranges, lines = fn_ranges(path)
-            absent, dead, partial, full = [], [], [], 0
-            for (name, s, e) in ranges:
-                inner = {ln: c for ln, c in d.items() if s <= ln <= e}
-                if not inner: absent.append("%s (line %d)" % (name, s)); continue
-                hit = [ln for ln, c in inner.items() if c > 0]
-                tot_l += len(inner); tot_h += len(hit)
-                if not hit: dead.append("%s (line %d)" % (name, s)); continue
-                miss = sorted(ln for ln, c in inner.items() if c == 0)
-                # drop pure closing braces / else lines
-                miss = [ln for ln in miss if re.sub(r"[\s{}();,]|else", "", lines[ln - 1])]
-                if miss: partial.append((name, s, miss))
-                else: full += 1
-            md += ["## %s" % f, "",
-                   "%d functions: %d fully executed, %d partly, %d compiled but never executed, %d never compiled into a harness."
-                   % (len(ranges), full, len(partial), len(dead), len(absent)), ""]
-            if absent: md += ["Never compiled into a harness (no instantiation): " + ", ".join(absent), ""]
-            if dead: md += ["Compiled, never executed: " + ", ".join(dead), ""]
-            for (name, s, miss) in partial:
-                md += ["* `%s` (line %d): lines not reached:" % (name, s)]
-                for ln in miss[:12]:
-                    md += ["    - %d: `%s`" % (ln, lines[ln - 1].strip()[:150])]
-                if len(miss) > 12: md += ["    - ... %d more" % (len(miss) - 12)]
-            md += [""]
-            summary.append((prop, f, len(ranges), full, len(partial), len(dead), len(absent)))
+        tot_l, tot_h = report_files(files_of.get(prop, []) + ANCHORS.EXTRA.get(prop, []), da, md, summary, prop)
+        all_raws += raws; all_bins += [b for b in bins if b not in all_bins]
         md += ["Lines of instantiated functions: %d, executed: %d (%.1f %%)." % (tot_l, tot_h, 100.0 * tot_h / max(tot_l, 1))]
         open(os.path.join(ROOT, "coverage", prop + ".md"), "w").write("\n".join(md) + "\n")
         print("%s: %d/%d lines of instantiated anchored functions executed" % (prop, tot_h, tot_l)); sys.stdout.flush()
@@ -127,6 +138,25 @@ def main(argv):
               "| property | file | fns | full | partly | never executed | not instantiated |", "|---|---|---|---|---|---|---|"]
         for row in summary: sm.append("| %s | %s | %d | %d | %d | %d | %d |" % row)
         open(os.path.join(ROOT, "coverage", "SUMMARY.md"), "w").write("\n".join(sm) + "\n")
+    if len(want) == 20:
+        pd = os.path.join(RUN, "ALL.profdata")
+        sh([os.path.join(B, "llvm-profdata"), "merge", "-sparse"] + all_raws + ["-o", pd])
+        objs = []
+        for b in all_bins: objs += ["-object", os.path.join(TARGET, "debug", b)]
+        lcov = sh([os.path.join(B, "llvm-cov"), "export", "-format=lcov", "-instr-profile=" + pd] + objs[1:]).stdout
+        files = []
+        for p in sorted(files_of):
+            for f in files_of[p] + ANCHORS.EXTRA.get(p, []):
+                if f not in files: files.append(f)
+        md = ["# Union — what NO harness reaches", "",
+              "All harness binaries of all 20 properties together (seed 1, quick sizes), every file some property is anchored in. "
+              "A line listed here is executed by no correspondence case at all: behaviour there is covered by theorems about the "
+              "model only, or is outside every property (Display / Debug impls, `unimplemented!` arms, the `dynamic` / serde glue).", ""]
+        usum = []
+        tl, th = report_files(sorted(files), parse_lcov(lcov), md, usum, "ALL")
+        md += ["Lines of instantiated functions: %d, executed: %d (%.1f %%)." % (tl, th, 100.0 * th / max(tl, 1))]
+        open(os.path.join(ROOT, "coverage", "UNION.md"), "w").write("\n".join(md) + "\n")
+        print("UNION: %d/%d" % (th, tl))
     shutil.rmtree(RUN, ignore_errors=True)
     if os.environ.get("COV_KEEP_TARGET") != "1": shutil.rmtree(TARGET, ignore_errors=True)
     return 0
